@@ -24,7 +24,7 @@ CHECKS = {
  "C05": ("exploration",
   "runtime monitoring: offline checker over an event log produced by a ClockedRepo decorator (tree writes, increments, witnesses) plus API-boundary Seen/Reopen/ClocksDeleted events",
   "Random sequences of increments, witnesses, creates, edits, reads, fetch+merge from a second replica, re-opens and clock-file deletions on the persisted and in-memory clocks; the checker replays the log: every written edit time is strictly above everything written, successfully read, merged or rebuilt from before; readings never decrease, also across re-open; rebuilt clocks dominate stored entities. Thorough adds a CLI session with deleted clock files.",
-  "Times of refused or fetched-but-unmerged data are deliberately not counted (the statement says fetched-and-merged)."),
+  "Times of refused or fetched-but-unmerged data are deliberately not counted (the statement says fetched-and-merged). Concurrent increments and witnesses on one clock; merge commits made by the second replica; clocks more than 1 000 000 ahead (open finding)."),
  "C08": ("exploration",
   "runtime monitoring: key-validity reference model vs observed accept/refuse of crafted (identity history, commit, signing mode) pairs in child processes",
   "Identity histories that add, remove and rotate keys at steered logical times are crossed with bug commits at every logical time, written by git-bug itself or crafted (right key, second key, removed key, future key, stranger, unsigned, altered tree/time; create, append and merge commits); a second replica holding only public keys reads and merges them; verdicts are compared with a model that evaluates keys in force at T and verifies the signature over the raw commit.",
@@ -36,7 +36,7 @@ CHECKS = {
  "C10": ("exploration",
   "runtime monitoring: reference interpreter of bug operations vs Compile()/BugCache.Snapshot() on all short and many long random operation sequences",
   "All operation sequences of length <=3 (thorough <=4) over a 13-symbol alphabet plus long random sequences are compiled and compared with an independent reference interpreter written from the property statement; compiled twice; driven incrementally through BugCache on a real repository with a comparison after every operation, after commit and after cache reopen against a from-scratch compilation.",
-  "Where the statement is silent (files of a never-edited create comment, actors of metadata/no-op operations, timeline entries of ineffective changes) every behaviour is accepted; an author all of whose operations are edits that change nothing must not be listed as actor; bounded part is exhaustive for the alphabet."),
+  "Where the statement is silent (files of a never-edited create comment, actors of metadata/no-op operations, timeline entries of ineffective changes) every behaviour is accepted; an author all of whose operations are edits that change nothing must not be listed as actor; bounded part is exhaustive for the alphabet. Author assignments of 1..4 authors up to renaming; storage faults at every storage call of a commit of operations staged by 1..3 authors, judged on Snapshot() vs Compile() of the held entity, the reference interpretation and the re-read bug."),
  "C12": ("exploration",
   "runtime monitoring: parser fuzz under recover, render/parse round trip against the documented grammar, reference query evaluator over generated bug populations",
   "Random strings never panic query.Parse; structured queries rendered per doc/queries.md parse back to the same structure and malformed classes are rejected; generated queries are evaluated through RepoCache on populations built from two replicas (Lamport ties) and compared with a reference evaluator over resolved snapshots: exact set, each once, order by requested key and direction.",
@@ -60,7 +60,7 @@ CHECKS = {
  "C19": ("fault_enumeration",
   "runtime monitoring: real git-bug processes on one repository under kill/contend schedules, event log checked offline by a one-slot lock reference model",
   "Holder (webui) and contender processes are spawned, signalled (SIGINT/SIGTERM/SIGKILL at build or ready, steered by hook delays) and reaped along generated schedules incl. failing commands, torn lock file and the check/create window; spawn/ready/attempt/signal/exit/lock-content events are checked by the lock model: no two holders, refusals name the holder and change nothing, opens succeed on a free cache, exits leave no lock, a live holder's lock survives.",
-  "Readiness is proven from output lines and socket ownership in /proc, exits from Wait(); no timing oracle. Added: a live opener parked between creating the lock file and writing its pid (hook cache.lock.created + SIGSTOP confirmed in /proc), and holder/opener under different unprivileged uids (skipped and recorded when the harness is not root)."),
+  "Readiness is proven from output lines and socket ownership in /proc, exits from Wait(); no timing oracle. Added: a live opener parked between creating the lock file and writing its pid (hook cache.lock.created + SIGSTOP confirmed in /proc), and holder/opener under different unprivileged uids (skipped and recorded when the harness is not root). Plus a sweep of the binary's whole command tree (39 commands, up to 15 invocation classes each incl. every flag pair): after every reaped invocation the lock file must be gone; hand-over schedules with 2-3 openers, suspended holders and an opener held at one system call."),
  "C06": ("fault_enumeration",
   "runtime monitoring with fault injection: self-SIGKILL before every mutating storage call (decorator), strace SIGKILL at every traced syscall, torn clock files; fresh-process state oracle",
   "For 15 write-path scenarios a dry run records the K mutating storage calls; every prefix is produced by killing the child process immediately before call k (exhaustive per scenario); thorough additionally kills at every mutating syscall position under strace and both tiers tear every clock file. A fresh process re-opens the repository with the clock loader, reads all entities and clocks; the monitor checks old-or-new per entity, clocks against stored times, and that repeating the action completes it.",
@@ -68,7 +68,7 @@ CHECKS = {
  "C07": ("exploration",
   "runtime monitoring: hostile-input catalogue and byte fuzz executed in child processes, crash and damage monitor over before/after views",
   "A hostile bare repository serves mutated bug and identity histories (catalogue of ~250 structural mutation kinds at every position, per-field type confusion discovered from the live operation encoding, seeded byte fuzz); each case does a real fetch+merge (entity API and cache API) or a local read in a child process; the monitor checks process survival, the reported status against the case's class and that every local ref and entity is unchanged.",
-  "must-reject/may-accept classification is the harness's reading of the property; thorough children run under the race detector (reports are diagnostics only)."),
+  "must-reject/may-accept classification is the harness's reading of the property; thorough children run under the race detector (reports are diagnostics only). Clients of the hostile remote: entity API, cache API, the command line (git-bug pull as a process) and the terminal UI in a tmux pseudo terminal; the remote also serves valid bugs that must be merged whatever happens to the hostile entity."),
  "C11": ("exploration",
   "runtime monitoring: differential oracle live cache vs cache rebuilt from a copy of the git data, after every action of generated two-user sessions",
   "Two users on two repositories sharing a remote run targeted and seeded random sessions of cache-level actions (new, every edit kind, staged edits under cache size 1..3, push, pull incl. fast-forward/diverged/identity update, remove, close/reopen); after every action on a quiescent side everything the live cache serves (id lists, excerpts, resolved snapshots, identities, valid labels, 25 queries, a full-text query per planted marker, metadata lookups) is compared with a cache built from scratch on a copy; edits after a pull must descend from the merged head.",
@@ -80,11 +80,11 @@ CHECKS = {
  "C18": ("exploration",
   "runtime monitoring: stress workloads with client-boundary history recording; offline exactly-once/no-phantom/chain checker, linearizability check (exact decider + porcupine), Go race detector, goroutine-dump deadlock classifier, cache-vs-rebuild comparator",
   "2..16 goroutines run generated mixes of cache calls on shared and private bugs in a child process (varying GOMAXPROCS, cache size, loaded/unloaded start, yield/delay injection at hook points between critical sections); every call is recorded at the client boundary; after the run an independent reader checks that every acknowledged operation is stored exactly once in a valid single chain, the per-bug append/read history is linearizable, the cache agrees with a rebuild; crashes and deadlocks are classified from the child's death / goroutine dump; a race build of the same workload reports data races by signature family.",
-  "Schedules explored are those the Go scheduler produced in the executed runs (fingerprints in the evidence). Race signatures are matched against known findings by access-pair family."),
+  "Schedules explored are those the Go scheduler produced in the executed runs (fingerprints in the evidence). Race signatures are matched against known findings by access-pair family. Cache-file write-order probes (hook cache.write.encoded delays every second writer; the file left behind is loaded by the parent and compared with a rebuild)."),
  "C20": ("exploration",
   "runtime monitoring: Relay reference-model oracle over executed pagination calls, page walks and GraphQL requests",
   "Every generated connection function is executed on all small inputs (lengths, page sizes, cursor positions incl. foreign and malformed; bounded part exhaustive) and each observable result is compared with a Relay reference model; forward/backward page walks and end-to-end GraphQL walks replay what a client does.",
-  "Trusts the harness's Relay model (refmodel/relay.go); nothing is claimed beyond the enumerated lengths and page sizes."),
+  "Trusts the harness's Relay model (refmodel/relay.go); nothing is claimed beyond the enumerated lengths and page sizes. Eight concurrent walks over every list with a stable order; identities with identical display names; a bug holding a set-metadata operation."),
 }
 
 NOT_YET = {
